@@ -677,7 +677,9 @@ class Harness:
 
     # --- transitions ---------------------------------------------------------------------------------------------
     def step(self, w: World, ev):
-        if w.twin is not None:
+        # a twin that has died (its own seam saw a violation, reported by the deep search) is no longer a valid reference: its endpoint
+        # model may be out of step with the events the shallow world still enables
+        if w.twin is not None and not w.twin.dead:
             w.twin.violations = []
             self._step_one(w.twin, ev)
             self._step_one(w, ev)
@@ -691,6 +693,8 @@ class Harness:
             self._step_one(w, ev)
 
     def _step_one(self, w: World, ev):
+        if w.dead:
+            return
         w.flags = ()
         w.last_out = ()
         w.loop.set_time(w.now / 10.0)      # the process-wide virtual clock shows this world's time
